@@ -103,7 +103,7 @@ def run(eng: Engine, ck: Check):
                                  any(isinstance(v, ast.Call) and call_name(v) == 'is_blocked' and enum_member(v.args[1]) == 'UPLOADS' for v in e.values)
                                  and all((isinstance(v, ast.Call) and call_name(v) == 'is_blocked') or 'UPLOAD' in enum_members_in(v) for v in e.values)
                                  for e, pol, _ in raw) or any(blocked_guard('UPLOADS', lambda u: True)(e, pol) for e, pol, _ in gs)
-        is_up = any(pol and 'UPLOAD' in enum_members_in(e) and mentions_name(e, 'direction') for e, pol, _ in list(gs) + list(raw))
+        is_up = any(pol and 'UPLOAD' in enum_members_in(e) and (mentions_name(e, 'direction') or mentions_attr(e, 'direction')) for e, pol, _ in list(gs) + list(raw))
         ck.ob('R-C08-BLOCK', tr, a, 'creating an upload on a transfer request is dominated by the UPLOADS block test',
               blocked_and_upload and is_up, 'block test missing or weaker than `is_blocked(user, UPLOADS) and direction == UPLOAD`',
               construct='transfer request blocked(UPLOADS)')
@@ -211,12 +211,10 @@ def run(eng: Engine, ck: Check):
     for hq in ('TransferManager._on_peer_transfer_queue', 'TransferManager._on_peer_transfer_request'):
         h = eng.func(TM, hq)
         for c in calls_on(h.node, '_add_upload') + calls_on(h.node, 'find_shared_item'):
-            us = [unparse(x) for x in c.args] + [unparse(k.value) for k in c.keywords]
-            ck.ob('R-C08-GATE', h, c, f'{h.name}: share lookup is made for the requesting user', 'username' in us,
-                  unparse(c)[:70], construct=f'{h.name} {call_name(c)} user')
-        un = single_assignments(h).get('username')
-        ck.ob('R-C08-GATE', h, h.node, f'{h.name}: the requesting user is connection.username', un is not None and
-              unparse(un) == 'connection.username', unparse(un), construct=f'{h.name} user source')
+            connp = next((p_ for p_ in h.params if 'connection' in p_.lower()), h.params[-1])
+            us = [unparse(expand_aliases(h, x)) for x in c.args] + [unparse(expand_aliases(h, k.value)) for k in c.keywords]
+            ck.ob('R-C08-GATE', h, c, f'{h.name}: share lookup is made for the requesting user (connection.username, directly or through a local)',
+                  f'{connp}.username' in us, unparse(c)[:70] + f' -> {us}', construct=f'{h.name} {call_name(c)} user')
 
     # ---- R-C08-CASE: needle and haystack agree on case normalisation
     tests = []
@@ -284,27 +282,39 @@ def run(eng: Engine, ck: Check):
             ok = 'transfer.username' in unparse(f.node) and 'not ' not in unparse(f.node)
         ck.ob('R-C08-REEVAL', f or ev, (f or ev).node, f'condition {nm} tests {needle}{" " + mem if mem else ""} for the upload\'s user', bool(ok),
               unparse(f.node)[:120] if f else 'missing', construct=f'condition {nm}')
-    sc = [n for n in walk_local(ev.node) if isinstance(n, ast.Assign) and unparse(n.targets[0]) == 'should_change']
-    ok = len(sc) == 1 and isinstance(sc[0].value, ast.Compare) and isinstance(sc[0].value.ops[0], ast.NotEq) and \
-        {unparse(sc[0].value.left), unparse(sc[0].value.comparators[0])} == {'aborted', 'bool(abort_reason)'}
+    # names discovered from the return value: return (<should change>, <reason>)
+    evr = [n for n in walk_local(ev.node) if isinstance(n, ast.Return) and isinstance(n.value, ast.Tuple) and len(n.value.elts) == 2]
+    SC, AR = (unparse(evr[0].value.elts[0]), unparse(evr[0].value.elts[1])) if len(evr) == 1 else ('should_change', 'abort_reason')
+    sc = [n for n in walk_local(ev.node) if isinstance(n, ast.Assign) and unparse(n.targets[0]) == SC]
+    ok = len(sc) == 1 and isinstance(sc[0].value, ast.Compare) and isinstance(sc[0].value.ops[0], ast.NotEq)
+    ab = None
+    if ok:
+        sides = [sc[0].value.left, sc[0].value.comparators[0]]
+        reason_side = [x for x in sides if unparse(x) in (f'bool({AR})', f'{AR} is not None')]
+        ab_side = [x for x in sides if x not in reason_side]
+        ok = len(reason_side) == 1 and len(ab_side) == 1
+        if ok:
+            ab = expand_aliases(ev, ab_side[0])
     ck.ob('R-C08-REEVAL', ev, sc[0] if sc else ev.node, 'should_change = (is ABORTED) != (has a reason to be aborted)', ok,
           f'{[unparse(s) for s in sc]}', construct='should_change')
-    ab = single_assignments(ev).get('aborted')
     ck.ob('R-C08-REEVAL', ev, ev.node, '`aborted` means state == ABORTED', ab is not None and enum_members_in(ab) == {'ABORTED'} and
           isinstance(ab, ast.Compare) and isinstance(ab.ops[0], ast.Eq), unparse(ab), construct='aborted definition')
+    # in manage_shares_changed:  <sc>, <reason> = self._evaluate_aborted_state(upload)
+    mr = pfind(ms.node, '$sc, $ar = self._evaluate_aborted_state($_)')
+    SC2, AR2 = (mr[0][1]['sc'], mr[0][1]['ar']) if len(mr) == 1 else ('should_change', 'abort_reason')
     qs = [c for c in calls_in(ms.node) if call_name(c) == 'queue' and mentions_attr(c.func.value, 'state')]
     abs_ = [c for c in calls_in(ms.node) if call_name(c) == 'abort' and mentions_attr(c.func.value, 'state')]
     ck.floor('R-C08-REEVAL.actions', min(len(qs), len(abs_)), 1)
     for c in qs:
         gs = eng.guards_at(ms, c)
-        ok = any(pol and unparse(e) == 'should_change' for e, pol, _ in gs) and any(pol and enum_members_in(e) == {'ABORTED'} for e, pol, _ in gs)
+        ok = any(pol and unparse(e) == SC2 for e, pol, _ in gs) and any(pol and enum_members_in(e) == {'ABORTED'} for e, pol, _ in gs)
         ck.ob('R-C08-REEVAL', ms, c, 'an ABORTED upload whose reason vanished is queued again', ok, f'{[(unparse(e), p) for e, p, _ in gs]}',
               construct='requeue')
     for c in abs_:
         gs = eng.guards_at(ms, c)
-        ok = any(pol and unparse(e) == 'should_change' for e, pol, _ in gs) and any((not pol) and enum_members_in(e) == {'ABORTED'} for e, pol, _ in gs)
+        ok = any(pol and unparse(e) == SC2 for e, pol, _ in gs) and any((not pol) and enum_members_in(e) == {'ABORTED'} for e, pol, _ in gs)
         r = kw(c, 'reason') or (c.args[0] if c.args else None)
-        ok = ok and r is not None and unparse(r) == 'abort_reason'
+        ok = ok and r is not None and unparse(r) == AR2
         ck.ob('R-C08-REEVAL', ms, c, 'an upload that is no longer permitted is aborted with the matching reason', ok,
               f'{[(unparse(e), p) for e, p, _ in gs]} reason={unparse(r)}', construct='abort with reason')
     # the awaits are actually awaited
